@@ -213,6 +213,8 @@ def reflective(prop, tier, seed, oracle_module, level_note, extra_obligations=No
         rc = 1
     elif problems:
         # search for a concrete failing input
+        os.environ['VERIF_HISTORY_FRACTION'] = '0.5'        # the search for a failing input leans more on history-built objects
+        ENV['VERIF_HISTORY_FRACTION'] = '0.5'
         s = harness(oracle_module, oargs + ['--mode', 'search', '--seed', str(seed), '--budget', '60' if tier == 'quick' else '600',
                                     '--hint', json.dumps(failed)])
         found = [v for v in s.get('violations', []) if not any(k['key'] == v.get('key') for k in known)]
